@@ -336,6 +336,9 @@ func robustRun(args []string) error {
 			wdMu.Unlock()
 			if n != "" && time.Since(st) > 6*time.Second {
 				fmt.Fprintf(os.Stderr, "fatal error: watchdog: %s did not return within 6 s (unbounded loop)\n", n)
+				buf := make([]byte, 1<<16)
+				k := runtime.Stack(buf, true)
+				os.Stderr.Write(buf[:k])
 				os.Exit(3)
 			}
 		}
